@@ -17,7 +17,7 @@ DOC = {
         'C05.M': __import__('fcverif.rules.common', fromlist=['MANDATORY_TEXT']).MANDATORY_TEXT,
         'C05.R1': 'safe_remove: rename(path->tmp)? dominates the callback; every path from the callback\'s Err edge to a return passes rename(tmp->path) and returns Err; remove(tmp) only on the Ok edge; path itself is never removed',
         'C05.R2': 'FsCommand::symlink/hardlink are called only inside closures passed to safe_remove',
-        'C05.R3': 'move_copy: check_can_rename? -> mkdirs? -> unsafe_copy? -> remove(source)?, each only after the previous succeeded',
+        'C05.R3': 'move_copy: check_can_rename? -> mkdirs? -> unsafe_copy? -> remove(source)?, each only after the previous succeeded; a failed copy and a failed removal of the source both remove the target that this call created, and return the error',
         'C05.R4': 'move_rename: check_can_rename? -> mkdirs? -> unsafe_rename?',
         'C05.R5': 'linux_reflink: backup clone dominates the overwrite; backup failure returns Err without touching dest; overwrite failure passes rename(tmp->dest) and returns Err; temp removed only on non-failing exits of the overwrite',
         'C05.R6': 'run_script counts only successes: Result<FileLen> is turned into a count only through filter_map(Result::ok)',
@@ -220,9 +220,22 @@ def r34(ctx, lib):
                           'the source can be removed although the copy failed')
                 cat, det = err_handling(mc, rm)
                 ctx.check(cat in ('PROPAGATED', 'RETURNED', 'ERR-RETURNED'), 'C05.R3', mc.path + '|remove', rm.where(), 'remove: error returned', 'remove: result not propagated (%s %s)' % (cat, det))
-            for r in tgt_rm:
-                # removing the target is legitimate only as the clean-up of a failed copy, and the failure is still returned
+            # a failed remove(source) leaves the file where it was: the move has failed, and the copy that this call created must not stay
+            rt = result_tests(mc, src_rm[0]) if src_rm else []
+            rm_err = reachable_state(mc, 0, rt, 'err') if rt else set()
+            rm_ok = reachable_state(mc, 0, rt, 'ok') if rt else set()
+            if src_rm:
                 from ..analysis import return_variants_state
+                cleans = [r for r in tgt_rm if r.bb in rm_err and r.bb not in rm_ok]
+                rvs = return_variants_state(mc, src_rm[0].bb, rt, 'err') if rt else set()
+                ctx.check(bool(cleans) and 'Ok' not in rvs, 'C05.R3', mc.path + '|failed-remove-cleans-target', src_rm[0].where(), 'when remove(source) fails the fresh copy is removed again and the error is returned',
+                          'when remove(source) fails (directory not writable, append-only, sticky) the error is returned but the complete copy made a moment ago stays under the target directory: the command '
+                          'is reported as failed and not counted, yet the data now exist twice, and every later run refuses the file with "Target already exists"')
+            for r in tgt_rm:
+                # removing the target is legitimate only as the clean-up of a failed copy or of a failed removal of the source, and the failure is still returned
+                from ..analysis import return_variants_state
+                if r.bb in rm_err and r.bb not in rm_ok:
+                    continue
                 only_err = r.bb in err_region and r.bb not in ok_region
                 rv = return_variants_state(mc, r.bb, ct, 'err') if ct else set()
                 ctx.check(only_err and 'Ok' not in rv, 'C05.R3', mc.path + '|target-cleanup', r.where(), 'the target is removed only after the copy failed, and the error is returned',
@@ -383,7 +396,7 @@ EXCEPTIONS_R7 = {
     ('dedupe::FsCommand::maybe_lock', r'FileLock::new$'): 'only ErrorKind::Unsupported is turned into Ok(None), every other error is returned (decided by C20.R2)',
     ('dedupe::FsCommand::execute', r'FsCommand::move_rename$'): 'documented fall-back: a failed rename falls through to move_copy, which reports its own error',
     ('dedupe::partition::{closure}', r'FileMetadata::new$'): 'identity of a directory entry (parent id + name): when the parent cannot be stat-ed the entry gets the identity None, which it shares with every other such entry, so it counts as an alias and is retained - the safe direction',
-    ('dedupe::FsCommand::move_copy', r'^std::fs::remove_file$'): 'clean-up of the incomplete copy after unsafe_copy failed; the copy error itself is returned (decided by C05.R3 target-cleanup)',
+    ('dedupe::FsCommand::move_copy', r'^std::fs::remove_file$'): 'clean-up of the target this call created, after unsafe_copy or remove(source) failed; that error itself is returned (decided by C05.R3 target-cleanup / failed-remove-cleans-target)',
 }
 
 
